@@ -1680,3 +1680,377 @@ func E3EllipseParamAngle(c *core.Ctx, r *core.Report) {
 	r.Count("E3.ellipse-param-angles", n)
 	r.Floor("E3.ellipse-param-angles", 1)
 }
+
+// E3ContainmentFilter: a containment pre-filter does not use an over-approximated box for the contained object.
+func E3ContainmentFilter(c *core.Ctx, r *core.Report) {
+	r.Rule("E3.containment-filter", "package canvas: FastBounds is an over-approximation (control points, the full circle of an arc). It may stand for the *container* in a test that prunes work — a box that is too large only prunes less — but not for the *contained* object: `!A.Contains(B)` with B derived from FastBounds() rejects pairs in which the object itself lies inside A although its control hull sticks out. Filling with such a filter no longer adds the winding of an enclosing contour to a nested curved contour. Every negated Rect.Contains(Rect) in the package is examined; the argument must not be (an element of) something assigned from FastBounds()")
+	p := c.MustPkg("")
+	info := p.TypesInfo
+	n := 0
+	for _, fd := range core.AllFuncDecls(p) {
+		if fd.Body == nil || strings.HasSuffix(c.Fset.Position(fd.Pos()).Filename, "_test.go") {
+			continue
+		}
+		fname := "canvas." + core.FuncName(fd)
+		fast := map[types.Object]bool{}
+		ast.Inspect(fd.Body, func(m ast.Node) bool {
+			as, ok := m.(*ast.AssignStmt)
+			if !ok || len(as.Lhs) != len(as.Rhs) {
+				return true
+			}
+			for i, l := range as.Lhs {
+				id := core.RootIdent(l)
+				if id == nil {
+					continue
+				}
+				if hasCallTo(info, as.Rhs[i], "FastBounds") {
+					fast[core.ObjOf(info, id)] = true
+				}
+			}
+			return true
+		})
+		ord := 0
+		ast.Inspect(fd.Body, func(m ast.Node) bool {
+			u, ok := m.(*ast.UnaryExpr)
+			if !ok || u.Op != token.NOT {
+				return true
+			}
+			call, ok := core.Unparen(u.X).(*ast.CallExpr)
+			if !ok || len(call.Args) != 1 {
+				return true
+			}
+			se, ok := call.Fun.(*ast.SelectorExpr)
+			if !ok || se.Sel.Name != "Contains" {
+				return true
+			}
+			if t := info.TypeOf(se.X); t == nil || !strings.HasSuffix(t.String(), "canvas.Rect") {
+				return true
+			}
+			if t := info.TypeOf(call.Args[0]); t == nil || !strings.HasSuffix(t.String(), "canvas.Rect") {
+				return true
+			}
+			n++
+			ord++
+			key := fmt.Sprintf("%s|negated containment test #%d: the contained box is exact", fname, ord)
+			arg := call.Args[0]
+			bad := hasCallTo(info, arg, "FastBounds")
+			if id := core.RootIdent(arg); id != nil && fast[core.ObjOf(info, id)] {
+				bad = true
+			}
+			if bad {
+				r.Fail("E3.containment-filter", key, c.Pos(u.Pos()), fmt.Sprintf("`%s` prunes on the FastBounds of the object that should be contained: a curved sub-path whose control points or full arc circle reach outside the other box is rejected although the curve itself lies inside", c.Src(u)))
+			} else {
+				r.OK("E3.containment-filter", key, c.Pos(u.Pos()), "")
+			}
+			return true
+		})
+	}
+	r.OK("E3.containment-filter", "canvas|no pruning on an over-approximated inner box", "", fmt.Sprintf("%d negated containment tests", n))
+	r.Count("E3.functions-scanned-for-containment-filters", len(core.AllFuncDecls(p)))
+	r.Floor("E3.functions-scanned-for-containment-filters", 500)
+}
+
+// E3EllipseFrameRotation: the chord is taken into the ellipse's own frame by rotating with −φ.
+func E3EllipseFrameRotation(c *core.Ctx, r *core.Report) {
+	r.Rule("E3.ellipse-frame", "ellipseToCenter and ellipseRadiiCorrection (which ArcTo uses to decide whether the radii reach the end point, and by how much to enlarge them) evaluate λ = x′²/rx² + y′²/ry² for the half chord (x′, y′) expressed in the ellipse's own axes, i.e. rotated by −φ (SVG implementation notes F.6.5.1: x′ = cosφ·Δx + sinφ·Δy, y′ = −sinφ·Δx + cosφ·Δy). The two quantities that are squared and divided by rx² and ry² are therefore defined with a +sinφ term in the first and a −sinφ term in the second, or by a Point.Rot whose angle is the negated rotation. Rotating by +φ tests the chord against the mirror image of the ellipse: rotated non-circular arcs are stored with radii that cannot reach their end point, or are enlarged although they fit")
+	p := c.MustPkg("")
+	info := p.TypesInfo
+	n := 0
+	for _, fname := range []string{"ellipseToCenter", "ellipseRadiiCorrection"} {
+		fd := core.MustFuncDecl(p, fname)
+		r.Func("canvas." + fname)
+		// the rotation parameter: the float parameter right after the two radii (by the reviewed table)
+		pos, ok := ellipseRadiusArgs[fname]
+		if !ok {
+			continue
+		}
+		phiObj := paramObj(info, fd, pos[1]+1)
+		rxObj, ryObj := paramObj(info, fd, pos[0]), paramObj(info, fd, pos[1])
+		// λ: sum of two quotients
+		var num [2]ast.Expr
+		ast.Inspect(fd.Body, func(m ast.Node) bool {
+			be, ok := m.(*ast.BinaryExpr)
+			if !ok || be.Op != token.ADD || num[0] != nil {
+				return true
+			}
+			get := func(e ast.Expr, rad types.Object) ast.Expr {
+				// ((a*a)/r)/r
+				q1, ok := core.Unparen(e).(*ast.BinaryExpr)
+				if !ok || q1.Op != token.QUO {
+					return nil
+				}
+				if id, ok := core.Unparen(q1.Y).(*ast.Ident); !ok || core.ObjOf(info, id) != rad {
+					return nil
+				}
+				q2, ok := core.Unparen(q1.X).(*ast.BinaryExpr)
+				if !ok || q2.Op != token.QUO {
+					return nil
+				}
+				if id, ok := core.Unparen(q2.Y).(*ast.Ident); !ok || core.ObjOf(info, id) != rad {
+					return nil
+				}
+				sq, ok := core.Unparen(q2.X).(*ast.BinaryExpr)
+				if !ok || sq.Op != token.MUL || types.ExprString(sq.X) != types.ExprString(sq.Y) {
+					return nil
+				}
+				return core.Unparen(sq.X)
+			}
+			a, b := get(be.X, rxObj), get(be.Y, ryObj)
+			if a != nil && b != nil {
+				num[0], num[1] = a, b
+			}
+			return true
+		})
+		n++
+		key := "canvas." + fname + "|half chord rotated by −φ into the ellipse frame"
+		if num[0] == nil {
+			r.Fail("E3.ellipse-frame", key, c.Pos(fd.Pos()), "the radii check x′²/rx² + y′²/ry² was not found")
+			continue
+		}
+		defOf := func(o types.Object) ast.Expr {
+			var def ast.Expr
+			ast.Inspect(fd.Body, func(m ast.Node) bool {
+				if as, ok := m.(*ast.AssignStmt); ok && len(as.Lhs) == len(as.Rhs) {
+					for i, l := range as.Lhs {
+						if id, ok := l.(*ast.Ident); ok && core.ObjOf(info, id) == o {
+							def = as.Rhs[i]
+						}
+					}
+				}
+				return true
+			})
+			return def
+		}
+		// sign of the additive term that mentions the sine of the rotation
+		var sinObj types.Object
+		ast.Inspect(fd.Body, func(m ast.Node) bool {
+			if as, ok := m.(*ast.AssignStmt); ok && len(as.Lhs) == 2 && len(as.Rhs) == 1 {
+				if call, ok := as.Rhs[0].(*ast.CallExpr); ok && core.IsPkgFunc(info, call, "math", "Sincos") {
+					if id, ok := as.Lhs[0].(*ast.Ident); ok {
+						sinObj = core.ObjOf(info, id)
+					}
+				}
+			}
+			return true
+		})
+		sinSign := func(e ast.Expr) int {
+			sign := 0
+			var walk func(e ast.Expr, s int)
+			walk = func(e ast.Expr, s int) {
+				e = core.Unparen(e)
+				switch x := e.(type) {
+				case *ast.BinaryExpr:
+					switch x.Op {
+					case token.ADD:
+						walk(x.X, s)
+						walk(x.Y, s)
+						return
+					case token.SUB:
+						walk(x.X, s)
+						walk(x.Y, -s)
+						return
+					case token.QUO:
+						walk(x.X, s)
+						return
+					}
+				case *ast.UnaryExpr:
+					if x.Op == token.SUB {
+						walk(x.X, -s)
+						return
+					}
+				}
+				// a product term: does it mention the sine? with a leading minus inside?
+				mentions := false
+				neg := 1
+				ast.Inspect(e, func(k ast.Node) bool {
+					if id, ok := k.(*ast.Ident); ok && sinObj != nil && core.ObjOf(info, id) == sinObj {
+						mentions = true
+					}
+					return true
+				})
+				if be, ok := e.(*ast.BinaryExpr); ok && be.Op == token.MUL {
+					if u, ok := core.Unparen(be.X).(*ast.UnaryExpr); ok && u.Op == token.SUB {
+						neg = -1
+					}
+				}
+				if mentions {
+					sign = s * neg
+				}
+			}
+			walk(e, 1)
+			return sign
+		}
+		verdict := ""
+		var viaRot *ast.CallExpr
+		var signs [2]int
+		for i := 0; i < 2; i++ {
+			switch x := num[i].(type) {
+			case *ast.Ident:
+				if d := defOf(core.ObjOf(info, x)); d != nil {
+					signs[i] = sinSign(d)
+				}
+			case *ast.SelectorExpr:
+				if id, ok := core.Unparen(x.X).(*ast.Ident); ok {
+					if d := defOf(core.ObjOf(info, id)); d != nil {
+						ast.Inspect(d, func(k ast.Node) bool {
+							if call, ok := k.(*ast.CallExpr); ok {
+								if se, ok := call.Fun.(*ast.SelectorExpr); ok && se.Sel.Name == "Rot" && len(call.Args) == 2 {
+									viaRot = call
+								}
+							}
+							return true
+						})
+					}
+				}
+			}
+		}
+		if viaRot != nil {
+			neg := false
+			if u, ok := core.Unparen(viaRot.Args[0]).(*ast.UnaryExpr); ok && u.Op == token.SUB {
+				if id, ok := core.Unparen(u.X).(*ast.Ident); ok && core.ObjOf(info, id) == phiObj {
+					neg = true
+				}
+			}
+			if !neg {
+				verdict = fmt.Sprintf("the half chord is rotated with `%s`, by +φ: Point.Rot turns counter clockwise, the ellipse frame is reached by turning back (Rot(-phi, …))", c.Src(viaRot))
+			}
+		} else if signs[0] == 1 && signs[1] == -1 {
+			// x′ has +sinφ, y′ has −sinφ
+		} else {
+			verdict = fmt.Sprintf("the sine terms of the two rotated coordinates have signs (%+d, %+d); rotating by −φ gives (+1, −1)", signs[0], signs[1])
+		}
+		if verdict == "" {
+			r.OK("E3.ellipse-frame", key, c.Pos(fd.Pos()), "")
+		} else {
+			r.Fail("E3.ellipse-frame", key, c.Pos(fd.Pos()), verdict+": the radii are checked against the mirror image of the ellipse, so a rotated non-circular arc keeps radii that cannot reach its end point or is enlarged needlessly")
+		}
+	}
+	r.Count("E3.ellipse-frame-checks", n)
+	r.Floor("E3.ellipse-frame-checks", 2)
+}
+
+// E3ArcAngleFrame: angles from ellipseToCenter are relative to the ellipse's rotation.
+func E3ArcAngleFrame(c *core.Ctx, r *core.Report) {
+	r.Rule("E3.arc-angle-frame", "ellipseToCenter returns the start and end angle of an arc in the ellipse's own frame, i.e. relative to its rotation φ. Where such an angle is turned into a point directly with PolarPoint (absolute polar coordinates about the centre) the rotation handed to ellipseToCenter is added first (`θ += φ` for each of the two angles), unless that rotation is the constant 0. ArcTo zeroes the rotation of circles, but Path.Transform can leave a circle with a rotation of 90°; without the addition the circular flattener then places its vertices a quarter turn away from the arc")
+	p := c.MustPkg("")
+	info := p.TypesInfo
+	n := 0
+	for _, fd := range core.AllFuncDecls(p) {
+		if fd.Body == nil || strings.HasSuffix(c.Fset.Position(fd.Pos()).Filename, "_test.go") {
+			continue
+		}
+		fname := "canvas." + core.FuncName(fd)
+		// angles from ellipseToCenter with a non-constant rotation
+		type src struct {
+			phi  string
+			call token.Pos
+		}
+		angles := map[types.Object]src{}
+		ast.Inspect(fd.Body, func(m ast.Node) bool {
+			as, ok := m.(*ast.AssignStmt)
+			if !ok || len(as.Lhs) != 4 || len(as.Rhs) != 1 {
+				return true
+			}
+			call, ok := as.Rhs[0].(*ast.CallExpr)
+			if !ok {
+				return true
+			}
+			if f := core.CalleeOf(info, call); f == nil || f.Name() != "ellipseToCenter" || len(call.Args) < 5 {
+				return true
+			}
+			if v, isConst := constantFloat(core.ConstVal(info, call.Args[4])); isConst && v == 0 {
+				return true
+			}
+			for _, l := range as.Lhs[2:] {
+				if id, ok := l.(*ast.Ident); ok && id.Name != "_" {
+					angles[core.ObjOf(info, id)] = src{squash(types.ExprString(call.Args[4])), call.Pos()}
+				}
+			}
+			return true
+		})
+		if len(angles) == 0 {
+			continue
+		}
+		// locals derived from the angles
+		derived := map[types.Object][]types.Object{}
+		for o := range angles {
+			derived[o] = []types.Object{o}
+		}
+		ast.Inspect(fd.Body, func(m ast.Node) bool {
+			as, ok := m.(*ast.AssignStmt)
+			if !ok || as.Tok != token.DEFINE || len(as.Lhs) != len(as.Rhs) {
+				return true
+			}
+			for i, l := range as.Lhs {
+				id, ok := l.(*ast.Ident)
+				if !ok {
+					continue
+				}
+				var from []types.Object
+				ast.Inspect(as.Rhs[i], func(k ast.Node) bool {
+					if rid, ok := k.(*ast.Ident); ok {
+						if fr, ok := derived[core.ObjOf(info, rid)]; ok {
+							from = append(from, fr...)
+						}
+					}
+					return true
+				})
+				if len(from) > 0 {
+					derived[info.Defs[id]] = from
+				}
+			}
+			return true
+		})
+		ord := 0
+		ast.Inspect(fd.Body, func(m ast.Node) bool {
+			call, ok := m.(*ast.CallExpr)
+			if !ok || len(call.Args) != 2 {
+				return true
+			}
+			if f := core.CalleeOf(info, call); f == nil || f.Name() != "PolarPoint" {
+				return true
+			}
+			var roots []types.Object
+			ast.Inspect(call.Args[0], func(k ast.Node) bool {
+				if id, ok := k.(*ast.Ident); ok {
+					if fr, ok := derived[core.ObjOf(info, id)]; ok {
+						roots = append(roots, fr...)
+					}
+				}
+				return true
+			})
+			if len(roots) == 0 {
+				return true
+			}
+			n++
+			ord++
+			key := fmt.Sprintf("%s|PolarPoint #%d of an arc angle: the rotation is added to the angle first", fname, ord)
+			missing := ""
+			for _, ro := range roots {
+				sr := angles[ro]
+				added := false
+				ast.Inspect(fd.Body, func(k ast.Node) bool {
+					as, ok := k.(*ast.AssignStmt)
+					if !ok || as.Tok != token.ADD_ASSIGN || len(as.Lhs) != 1 || as.Pos() < sr.call || as.Pos() > call.Pos() {
+						return true
+					}
+					if id, ok := as.Lhs[0].(*ast.Ident); ok && core.ObjOf(info, id) == ro && squash(types.ExprString(as.Rhs[0])) == sr.phi {
+						added = true
+					}
+					return true
+				})
+				if !added {
+					missing = ro.Name()
+				}
+			}
+			if missing == "" {
+				r.OK("E3.arc-angle-frame", key, c.Pos(call.Pos()), "")
+			} else {
+				r.Fail("E3.arc-angle-frame", key, c.Pos(call.Pos()), fmt.Sprintf("the angle passed to PolarPoint derives from `%s`, which ellipseToCenter returned relative to the rotation `%s`, and that rotation is not added before the point is placed: for a circle that kept a rotation the vertices are turned away from the arc", missing, angles[roots[0]].phi))
+			}
+			return true
+		})
+	}
+	r.Count("E3.polar-placements-of-arc-angles", n)
+	r.Floor("E3.polar-placements-of-arc-angles", 1)
+}
